@@ -39,7 +39,7 @@ ASSUMPTIONS = [
     "the endpoint never reuses an id for a different packet; out-of-order arrival is by at most the skipped ids",
     "packet-id wrap-around is out of scope (documented TODO in the code)",
 ]
-MUST_REACH = {"states": 500, "evictions_observed": 10, "reverse_after_later_injection": 10, "out_of_order_sends": 10,
+MUST_REACH = {"circuit_pings_naming_the_next_id": 50, "states": 500, "evictions_observed": 10, "reverse_after_later_injection": 10, "out_of_order_sends": 10,
               "resends_checked": 10, "law_evaluations": 10000, "circuit_forwarded": 100, "circuit_proxy_packets": 50,
               "circuit_replays_of_sent_messages": 10, "circuit_endpoint_resends": 5, "circuit_socket_failures": 20, "circuit_first_sightings_flagged_resent": 50,
               "long_history_injections": 1100, "long_history_probes": 100, "long_history_probes_after_eviction": 50}
@@ -305,10 +305,14 @@ def circuit_history(ctx, rng, steps):
             return None
         return got[0]
 
+    forced = []
     for _ in range(steps):
-        a = rng.choices(["F", "R", "J", "T", "TJ", "K", "E"], weights=[6, 1, 3, 2, 1, 1, 1])[0]
+        a = forced.pop(0) if forced else rng.choices(["F", "R", "J", "T", "TJ", "K", "E", "P"], weights=[6, 1, 3, 2, 1, 1, 1, 2])[0]
         if a in ("T", "TJ", "R") and not went_out:
             continue
+        if a == "P" and rng.random() < 0.6:
+            # an idle endpoint pings (naming the id it will use next), the proxy injects, the endpoint sends that id
+            forced[:] = rng.choice([["J", "F"], ["J", "J", "F"], ["K", "F"], ["J", "P"], ["T", "F"]])
         path.append(a)
         if len(path) > 60:
             del path[0]
@@ -346,8 +350,8 @@ def circuit_history(ctx, rng, steps):
                     return
                 first[o] = want
                 wires[want] = ("fwd", o)
-            elif a in ("F", "R"):
-                if a == "F":
+            elif a in ("F", "R", "P"):
+                if a in ("F", "P"):
                     o = next_orig
                     next_orig += 1
                 else:
@@ -362,11 +366,17 @@ def circuit_history(ctx, rng, steps):
                     if a == "F":
                         ctx.count("circuit_first_sightings_flagged_resent")
                 msg = mk(o, flags)
+                if a == "P":
+                    # the periodic ping of an idle endpoint: OldestUnacked names the id it will use NEXT, one the proxy has not
+                    # seen (the proxy translates that field too - what it writes there is not judged, what follows is)
+                    msg = Message("StartPingCheck", Block("PingID", PingID=o % 256, OldestUnacked=next_orig), packet_id=o,
+                                  direction=Direction.OUT, flags=flags)
+                    ctx.count("circuit_pings_naming_the_next_id")
                 circ.send(msg)
                 w = emitted(a)
                 if w is None:
                     return
-                if a == "F":
+                if a in ("F", "P"):
                     went_out.append((msg, "fwd"))
                     want = expected_wire(injected, o)
                     if w != want or w in wires:
